@@ -239,7 +239,9 @@ class Check:
 
     def _write_evidence(self, ev):
         d = ROOT / 'evidence'
-        d.mkdir(exist_ok=True)
+        if os.environ.get('VERIF_KEEP_EVIDENCE'):   # developer mutation runs must not overwrite real evidence
+            d = ROOT / 'replays' / '_scratch_evidence'
+        d.mkdir(parents=True, exist_ok=True)
         p = d / f'{self.pid}.json'
         p.write_text(json.dumps(ev, indent=1, default=repr))
         try:
